@@ -478,8 +478,21 @@ fn run_persist(seed: u64, budget: usize) -> ! {
     let mut checked = 0;
     'round: for round in 0..budget {
         if n_found() >= 3 { break; }
-        let n = 2 + rng.below(3);
-        let fs: Vec<F> = (0..n).map(|_| gen_f(&mut rng, n, 1 + (round % 3))).collect();
+        // every other round: 4..6 statements and one acceptance condition of the shape ite(x, F, G) with F and G over
+        // disjoint, differently sized groups of the other statements (children of one node with unbalanced supports)
+        let structured = round % 2 == 1;
+        let n = if structured { 4 + rng.below(3) } else { 2 + rng.below(3) };
+        let mut fs: Vec<F> = (0..n).map(|_| gen_f(&mut rng, n, 1 + (round % 3))).collect();
+        if structured {
+            let x = rng.below(n);
+            let others: Vec<usize> = (0..n).filter(|i| *i != x).collect();
+            let cut = 1 + rng.below(others.len() - 1);
+            let mut grp = |rng: &mut Rng, g: &[usize]| { let mut f = F::Atom(g[0]); for v in &g[1..] { let a = if rng.below(3) == 0 { F::Not(Box::new(F::Atom(*v))) } else { F::Atom(*v) }; f = match rng.below(3) { 0 => F::And(Box::new(f), Box::new(a)), 1 => F::Or(Box::new(f), Box::new(a)), _ => F::Xor(Box::new(f), Box::new(a)) }; } f };
+            let (a, b) = if rng.below(2) == 0 { (&others[..cut], &others[cut..]) } else { (&others[cut..], &others[..cut]) };
+            let (fa, fb) = (grp(&mut rng, a), grp(&mut rng, b));
+            let k = rng.below(n);
+            fs[k] = F::Or(Box::new(F::And(Box::new(F::Atom(x)), Box::new(fa))), Box::new(F::And(Box::new(F::Not(Box::new(F::Atom(x)))), Box::new(fb))));
+        }
         let mut text = String::new();
         for i in 0..n { text.push_str(&format!("s({}).", name(i))); }
         for i in 0..n { text.push_str(&format!("ac({},{}).", name(i), show(&fs[i]))); }
